@@ -40,8 +40,7 @@ def _num(x):
 
 
 def match_rows(want, got, time_keys, tol_fn, rel_keys=(), skip=()):
-    """Multiset match of row dicts: exact keys (and rel_keys rounded to 8
-    significant digits) form the bucket; within a bucket rows are matched
+    """Multiset match of row dicts: exact keys form the bucket; within a bucket rows are matched
     one-to-one (bipartite matching) so that every time key is within tolerance
     and every rel key within 1e-9.  Returns None or a message."""
     def bucket(r):
@@ -50,7 +49,7 @@ def match_rows(want, got, time_keys, tol_fn, rel_keys=(), skip=()):
             if k in time_keys or k in skip:
                 continue
             if k in rel_keys:
-                out.append((k, float("%.8g" % float(v))))
+                continue  # matched with tolerance inside the bucket (rounding here would split equal values at a rounding boundary)
             elif isinstance(v, (bool, int)) or (isinstance(v, float) and v.is_integer()):
                 out.append((k, int(v)))
             else:
@@ -70,7 +69,7 @@ def match_rows(want, got, time_keys, tol_fn, rel_keys=(), skip=()):
     def ok(w, g):
         return all(tol_fn(float(w[k]), float(g[k])) for k in time_keys) and all(rel(w[k], g[k]) for k in rel_keys)
 
-    keyf = lambda r: tuple(float(r[k]) for k in time_keys)
+    keyf = lambda r: tuple(float(r[k]) for k in time_keys) + tuple(float(r[k]) for k in rel_keys)
     for b in bw:
         W, G = sorted(bw[b], key=keyf), sorted(bg[b], key=keyf)
         if all(ok(w, g) for w, g in zip(W, G)):
